@@ -540,11 +540,11 @@ vharness! {
     //@ props: C20
     //@ tier: quick
     //@ functions: io::DispatcherInner::{update_timer, handle_timeout} (extracted verbatim)
-    //@ bounds: frame read rate configured: timeout 1..=u16, max_timeout any u16 (0 = no overall limit), rate any u32; a partial frame of r0 > 0 bytes arms the read timer; then TWO timer periods, in each the peer delivers more bytes (buffer grows to any larger size) or nothing; byte counts u32 full width
+    //@ bounds: frame read rate configured: timeout 1..=u16, max_timeout any u16 (0 = no overall limit), rate any u32; a partial frame of r0 > 0 bytes arms the read timer; then THREE timer periods, in each the peer delivers more bytes (buffer grows to any larger size) or nothing; byte counts u32 full width
     //@ assumes: the buffer of a partial frame only grows (bytes are consumed only when a frame completes)
     //@ mem: 12  timeout: 900
     //@ desc: slow-frame detection with time and traffic symbolic: at each expiry the frame timer is extended iff more than `rate` bytes arrived during the period just ended and the overall budget is not used up, else the connection ends with the read-timeout reason; a period without any new byte always ends it; nothing overflows
-    fn io_timer_read_rate() unwind(4) {
+    fn io_timer_read_rate() unwind(5) {
         let t = vk::any_u16();
         vk::assume(t >= 1);
         let maxt = vk::any_u16();
@@ -564,7 +564,7 @@ vharness! {
             let mut budget: u32 = maxt as u32;
             let mut period = 0;
             let mut alive = true;
-            while period < 2 && alive {
+            while period < 3 && alive {
                 if vk::any_bool() {
                     let more = vk::any_u32();
                     vk::assume(more as u64 >= cur);
@@ -589,7 +589,8 @@ vharness! {
                 }
                 period += 1;
             }
-            vcover!(alive && period == 2, "extended twice");
+            vcover!(alive && period == 3, "extended three times");
+            vcover!(!alive && period == 3, "extended twice, then timed out");
             vcover!(!alive && period == 2, "extended once, then timed out");
             std::mem::forget(inner);
         })
